@@ -225,6 +225,17 @@ def gen_shift(rng, maxn):
                                                          str(Fraction(rng.randint(-3 * den, 3 * den), den))], 'form': form}
 
 
+def gen_huge(rng, k):
+    """masks whose summed row / column indices exceed 2**31 (integer accumulators must not wrap): a large aperture
+    on a 2048x2048 / 2047x1800 / 1800x2047 array, bool or small-integer dtype"""
+    r, c = [(2048, 2048), (2047, 1800), (1800, 2047), (2048, 2048)][k % 4]
+    rad = rng.randint(int(0.43 * min(r, c)), int(0.47 * min(r, c)))
+    # a full disc towards the high-index corner: pi rad^2 * (n - rad) > 2**31 along at least one axis
+    cr, cc = r - 1 - rad - rng.randint(0, 20), c - 1 - rad - rng.randint(0, 20)
+    return {'op': 'coords_large', 'shape': [r, c], 'disc': [cr, cc, rad], 'half': 'none',
+            'dtype': ['bool', 'uint8', 'bool', 'int32', 'float32'][k % 5], 'j': [4, 2, 3, 11][k % 4]}
+
+
 def gen_large(rng, k):
     """>= 2**20 samples, sizes not divisible by powers of two, an off-centre half disc given by parameters"""
     r, c = rng.choice([(1024, 1031), (1049, 1000), (1500, 701), (1027, 1025)])
@@ -354,6 +365,8 @@ def generate(rng, tier):
         yield gen_coords(rng, 7 if quick else 9)
     for k in range(2 if quick else 8):
         yield gen_large(rng, k)
+    for k in range(1 if quick else 6):
+        yield gen_huge(rng, k)
     for _ in range(30 if quick else 300):
         yield gen_shift(rng, 6 if quick else 8)
     for _ in range(70 if quick else 700):
